@@ -14,7 +14,11 @@ enum Op {
     Bare(u32),
     List(Option<Range>),
     Delete(Option<Range>),
+    /// a bare DELETE in front of `:` or `ELSE`: rejected, nothing runs, nothing changes
+    Rejected,
 }
+
+const REJECTED_FORMS: &[&str] = &["DELETE:LIST", "DELETE :PRINT 1", "IF 1 THEN DELETE ELSE PRINT 1", "DELETE:DELETE 0-", "DELETE:NEW", "IF 0 THEN PRINT 1 ELSE DELETE:PRINT 2"];
 
 /// None = malformed/rejected range
 struct Range {
@@ -48,6 +52,9 @@ fn parse_range(s: &str) -> Option<Range> {
 }
 
 fn parse_op(line: &str) -> Op {
+    if REJECTED_FORMS.contains(&line) {
+        return Op::Rejected;
+    }
     if let Some(r) = line.strip_prefix("LIST") {
         return Op::List(parse_range(r));
     }
@@ -106,6 +113,14 @@ fn check_history(lines: &[String], full_check_numbers: &[u32]) -> Result<bool, (
                     }
                 } else if errs_of(&evs) == 0 {
                     return Err(("number-above-65529-not-rejected".into(), format!("{}: no error shown: {:?}", where_, flat(&evs))));
+                }
+            }
+            Op::Rejected => {
+                if errs_of(&evs) == 0 || !listed(&evs).is_empty() || evs.len() != 1 {
+                    return Err(("bare-delete-not-rejected".into(), format!("{}: expected one error and nothing else, got {:?}", where_, flat(&evs))));
+                }
+                if !model.is_empty() {
+                    nontrivial = true;
                 }
             }
             Op::List(r) => match r {
@@ -196,7 +211,7 @@ fn ops_over(universe: &[u32]) -> Vec<String> {
     v
 }
 
-const EXTRA: &[&str] = &["65530 PRINT 1", "70000 PRINT 1", "65530", "LIST 65530", "DELETE 65530", "LIST 70000", "DELETE 10-70000", "LIST 0-65530", "DELETE -65530"];
+const EXTRA: &[&str] = &["65530 PRINT 1", "70000 PRINT 1", "65530", "LIST 65530", "DELETE 65530", "LIST 70000", "DELETE 10-70000", "LIST 0-65530", "DELETE -65530", "DELETE:LIST", "DELETE :PRINT 1", "IF 1 THEN DELETE ELSE PRINT 1", "DELETE:DELETE 0-", "DELETE:NEW", "IF 0 THEN PRINT 1 ELSE DELETE:PRINT 2"];
 
 fn gen_histories(universe: &[u32], len: usize, part: usize, parts: usize, emit: &mut dyn FnMut(&str)) {
     let mut ops = ops_over(universe);
